@@ -583,8 +583,8 @@ def fake_sites(elements):
     D1 = {e: 2.0 ** (-(3 + i)) for i, e in enumerate(sn)}
 
     class Base:
-        def _setup(self):
-            self.elements = list(elements)
+        def _setup(self, els=None):
+            self.elements = list(els if els is not None else elements)
             self.numElements = len(elements) - 1
             self.phases = ['MATRIX', 'PREC']
             self.mobCallables = {'MATRIX': object(), 'PREC': None}
@@ -621,8 +621,8 @@ def fake_sites(elements):
             self._setup()
 
     class FMT(Base, MT.MulticomponentThermodynamics):
-        def __init__(self):
-            self._setup()
+        def __init__(self, els=None):
+            self._setup(els)
 
     ns = len(sol)
     Dalpha = np.array([[G(a, b) for b in ssol] for a in ssol])
@@ -704,6 +704,28 @@ def fake_sites(elements):
             ht = DP.HashTable()
             md3 = DP.computeMobility(mt, np.array([xuser, xuser]), np.array([900.0, 900.0]), hashTable=ht)
             add_md('second node with the same composition', np.array(md3.mobility)[1], np.array(md3.chemical_potentials)[1])
+            # two objects alive in one process: a second backend listing the same elements in another order, each with
+            # its own HashTable, asked about the same (numerically equal) composition vector one after the other
+            names2 = names[1:] + names[:1]
+            mt2 = FMT(names2 + ['VA'])
+            mt2.mobCallables = {'MATRIX': object(), 'PREC': object()}
+            htA, htB = DP.HashTable(), DP.HashTable()
+            DP.computeMobility(mt, np.array([xuser]), np.array([900.0]), hashTable=htA)
+            mdB = DP.computeMobility(mt2, np.array([xuser]), np.array([900.0]), hashTable=htB)
+            mdA = DP.computeMobility(mt, np.array([xuser]), np.array([900.0]), hashTable=htA)
+            add_md('own HashTable while a second model with its own HashTable is alive', np.array(mdA.mobility)[0], np.array(mdA.chemical_potentials)[0])
+            for pi, ph in enumerate(('MATRIX', 'PREC')):
+                out.append(('DiffusionParameters.computeMobility (second model, elements %s, own HashTable):mobility[%s]' % (names2, ph),
+                            list(np.array(mdB.mobility)[0][pi]), [exp_mob[ph][e] for e in names2]))
+            out.append(('DiffusionParameters.computeMobility (second model, elements %s, own HashTable):chemical_potentials' % names2,
+                        list(np.atleast_1d(np.array(mdB.chemical_potentials)[0])), [MUe[e] for e in names2]))
+            # calling conventions: the composition as nested list / tuple / float32-free ndarray; arguments unchanged afterwards
+            for conv, xarg in (('nested list', [list(map(float, xuser))]), ('tuple', (tuple(map(float, xuser)),)), ('2-d array', np.array([xuser]))):
+                keepx = copy.deepcopy(xarg)
+                mdc = DP.computeMobility(mt, xarg, [900.0])
+                add_md('composition given as %s' % conv, np.array(mdc.mobility)[0], np.array(mdc.chemical_potentials)[0])
+                same = np.array_equal(np.array(keepx, dtype=float), np.array(xarg, dtype=float))
+                out.append(('DiffusionParameters.computeMobility (composition given as %s):argument unchanged' % conv, [1.0 if same else 0.0], [1.0]))
             hp = HPm.HomogenizationParameters()
             exp_avg = [0.75 * exp_mob['MATRIX'][e] + 0.25 * exp_mob['PREC'][e] for e in names]
             ht = DP.HashTable()
@@ -735,7 +757,7 @@ def oracle_fake(elements):
     for site, obs, exp in res:
         o, x = flat(obs), flat(exp)
         if len(o) != len(x) or any(abs(a - b) > 1e-9 * max(abs(a), abs(b)) for a, b in zip(o, x)):
-            hits.append(('wrapper_equivariant', site.split(':')[0],
+            hits.append(('wrapper_equivariant', re.sub(r', elements \[.*?\]', '', site.split(':')[0]),
                          '%s with elements %r returns %r; the values attached to the element names in that order are %r'
                          % (site, elements[:-1], np.array(obs, dtype=float).tolist(), np.array(exp, dtype=float).tolist())))
     return hits
@@ -934,6 +956,52 @@ RUN_FIELDS = ['drivingForce', 'impingement', 'Gcrit', 'Rcrit', 'nucRate', 'preci
 VOLCONS = dict(checkNucleation=False, checkRcrit=False, maxVolumeChange=1e-5)
 
 
+class StopRun(Exception):
+    pass
+
+
+class StepCap:
+    """observer (addCouplingModel): a changed kawin may make a run take orders of magnitude more steps - stop it"""
+    def __init__(self, cap=6000, tmax=90.0):
+        self.cap, self.tmax, self.n, self.t0 = cap, tmax, 0, time.time()
+
+    def updateCoupledModel(self, model):
+        self.n += 1
+        if self.n > self.cap or time.time() - self.t0 > self.tmax:
+            raise StopRun()
+
+
+def capped_solve(m, cfg):
+    from kawin.solver import SolverType
+    m.addCouplingModel(StepCap(cfg.get('cap', 6000)))
+    try:
+        m.solve(cfg['tf'], solverType=SolverType.RK4 if cfg.get('solver') == 'RK4' else SolverType.EXPLICITEULER, verbose=False)
+        return False
+    except StopRun:
+        return True
+
+
+def apply_phase_options(m, cfg, names):
+    """non-default per-phase options, always given by phase NAME: cfg['options'] = {phase: {option: value}}"""
+    for nm, opts in (cfg.get('options') or {}).items():
+        if nm not in names:
+            continue
+        for k, v in opts.items():
+            if k == 'infiniteDiffusion':
+                m.setInfinitePrecipitateDiffusivity(bool(v), phase=nm)
+            elif k == 'shape':
+                m.setPrecipitateShape(v[0], phase=nm, ratio=v[1])
+            elif k == 'site':
+                m.setNucleationSite(v, phase=nm)
+            elif k == 'gamma':
+                m.setInterfacialEnergy(v, phase=nm)
+            elif k == 'vratio':
+                from kawin.precipitation import VolumeParameter
+                m.setVolumeBeta(0.4e-9 ** 3 / v, VolumeParameter.ATOMIC_VOLUME, 4, phase=nm)
+            else:
+                raise ValueError(k)
+
+
 def run_stub(cfg, order):
     import stubs
     from kawin.solver import SolverType
@@ -945,10 +1013,11 @@ def run_stub(cfg, order):
     with quiet():
         m = stubs.make_binary_model(phases=names, gammas=[GAMMAS[n] for n in names], sites=[sites.get(n, 'dislocations') for n in names],
                                     constraints=cfg.get('constraints'), T=T, x0=cfg.get('x0', 2e-2))
-        m.solve(cfg['tf'], solverType=SolverType.RK4 if cfg.get('solver') == 'RK4' else SolverType.EXPLICITEULER, verbose=False)
+        apply_phase_options(m, cfg, names)
+        capped = capped_solve(m, cfg)
     n = m.pData.n
     out = {'n': int(n), 'time': m.pData.time[:n + 1].copy(), 'temperature': m.pData.temperature[:n + 1].copy(),
-           'composition': m.pData.composition[:n + 1].copy(), 'phase': {}}
+           'composition': m.pData.composition[:n + 1].copy(), 'phase': {}, 'capped': capped}
     for j, nm in enumerate(names):
         d = {f: np.array(getattr(m.pData, f))[:n + 1, j].copy() for f in RUN_FIELDS}
         d['PSD'] = m.PBM[j].PSD.copy()
@@ -985,8 +1054,8 @@ def oracle_runs(cfg, orders=None):
         l0 = [cfg['phases'][i] for i in orders[0]]
         l1 = [cfg['phases'][i] for i in od]
         if r['n'] != base['n']:
-            hits.append(('run_perm_equivariant', 'time grid', 'listing the phases as %s takes %d steps to t=%g, listing them as %s takes %d steps'
-                         % (l0, base['n'], cfg['tf'], l1, r['n'])))
+            hits.append(('run_perm_equivariant', 'time grid', 'listing the phases as %s takes %d steps%s to t=%g, listing them as %s takes %d steps%s'
+                         % (l0, base['n'], ' (stopped by the harness)' if base.get('capped') else '', cfg['tf'], l1, r['n'], ' (stopped by the harness)' if r.get('capped') else '')))
             continue
         d, kk = cmp_arrays(base['time'], r['time'], rtol)
         if d:
@@ -1013,6 +1082,11 @@ def run_configs(quick):
         dict(name='two phases, volume rule binding', phases=['B1', 'B2'], tf=0.5, constraints=VOLCONS),
         dict(name='three phases, volume rule binding', phases=['B1', 'B2', 'B3'], tf=0.5, constraints=VOLCONS, orders=[[0, 1, 2], [1, 2, 0], [2, 1, 0]]),
         dict(name='two phases, bulk and dislocation sites, RK4', phases=['B1', 'B2'], tf=10., solver='RK4', sites={'B1': 'bulk'}),
+        # non-default per-phase options on a phase that is not listed first in some order
+        dict(name='two phases, B2 without internal diffusion', phases=['B1', 'B2'], tf=30., options={'B2': {'infiniteDiffusion': False}}),
+        dict(name='three phases, options differ per phase', phases=['B1', 'B2', 'B3'], tf=4.,
+             options={'B1': {'infiniteDiffusion': False, 'vratio': 1.1}, 'B3': {'infiniteDiffusion': False, 'shape': ['needle', 1.5]}, 'B2': {'site': 'bulk'}},
+             orders=[[0, 1, 2], [2, 0, 1], [1, 2, 0]]),
     ]
     if not quick:
         cfgs += [
@@ -1514,7 +1588,7 @@ def replay(ctx, obj):
     elif kind == 'profile':
         hits = oracle_profile(unhx(obj['input']))
     elif kind == 'sdiff':
-        hits = oracle_stub_diffusion(obj['input'])
+        hits = oracle_stub_diffusion(obj['input']) + (oracle_stub_diffusion_alive(obj['input']) if obj['input'].get('alive') else [])
     elif kind == 'setup':
         hits, _ = oracle_setup(obj['input'])
     elif kind == 'trun':
@@ -1834,10 +1908,9 @@ class NamedD:
         return np.array([[f * (2.0 if a == b else off(a, b)) * (1 + self.K[b] * xb[b]) for b in self.sol] for a in self.sol])
 
 
-def stub_diffusion_run(cfg, order):
+def stub_diffusion_build(cfg, order):
     import warnings
     from kawin.diffusion import SinglePhaseModel
-    from kawin.solver import SolverType
     with warnings.catch_warnings():
         warnings.simplefilter('ignore')
         with quiet():
@@ -1845,10 +1918,64 @@ def stub_diffusion_run(cfg, order):
             m.setTemperature(cfg['T'])
             # the couple is described once, element by element, in the order cfg gives - not in the model's order
             apply_profile_ops({'zlim': cfg['zlim'], 'ops': cfg['ops']}, cp=m.compositionProfile, model=m)
+    return m
+
+
+def stub_diffusion_finish(m, cfg, order):
+    import warnings
+    from kawin.solver import SolverType
+    with warnings.catch_warnings():
+        warnings.simplefilter('ignore')
+        with quiet():
             m.setup()
             x0 = {e: m.x[i].copy() for i, e in enumerate(order)}
             m.solve(cfg['tf'], solverType=SolverType.EXPLICITEULER, verbose=False)
     return x0, {e: m.x[i].copy() for i, e in enumerate(order)}
+
+
+def stub_diffusion_run(cfg, order):
+    return stub_diffusion_finish(stub_diffusion_build(cfg, order), cfg, order)
+
+
+def oracle_stub_diffusion_alive(cfg):
+    """several models of the same couple with different element orders alive in one process: all built first, then
+    solved one after the other; then the first one reset(), described again in another registration order and solved
+    again.  Each must give what it gives alone (by element name)."""
+    sol = cfg['solutes']
+    orders = [list(o) for o in itertools.permutations(sol)][:4]
+    alone = {tuple(od): stub_diffusion_run(cfg, od) for od in orders}
+    models = [(od, stub_diffusion_build(cfg, od)) for od in orders]
+    hits = []
+    rtol = 1e-10
+
+    def cmp(tag, od, got):
+        for which, a, b in (('initial', alone[tuple(od)][0], got[0]), ('final', alone[tuple(od)][1], got[1])):
+            for e in sol:
+                d, k = cmp_arrays(a[e], b[e], rtol)
+                if d:
+                    hits.append(('profile_equivariant', 'diffusion run, ' + tag.split(' while')[0].split(' and a')[0], '%s profile of %s of the model with elements %s %s differs from the same model run alone: %s'
+                                 % (which, e, ['NI'] + od, tag, d)))
+                    return True
+        return False
+    for od, m in models:
+        if cmp('solved while models with the element lists %s are alive' % [['NI'] + o for o in orders if o != od], od, stub_diffusion_finish(m, cfg, od)):
+            return hits
+    # history on one object: reset, describe the couple again in reversed registration order, solve again
+    od, m = models[0]
+    import warnings
+    with warnings.catch_warnings():
+        warnings.simplefilter('ignore')
+        with quiet():
+            m.reset()
+            keep = {}
+            for op in cfg['ops']:
+                if op[0] == 'set':
+                    keep[op[1]] = []
+                keep.setdefault(op[1], []).append(op)
+            again = [o for e in reversed(list(keep)) for o in keep[e]]
+            apply_profile_ops({'zlim': cfg['zlim'], 'ops': again}, cp=m.compositionProfile, model=m)
+    cmp('after reset() and a second description of the couple', od, stub_diffusion_finish(m, cfg, od))
+    return hits
 
 
 def oracle_stub_diffusion(cfg):
@@ -1879,6 +2006,10 @@ def stub_diffusion_configs(quick):
         dict(name='quaternary couple', solutes=['CO', 'CR', 'AL'], zlim=z, N=10, T=1400.0, tf=2.0e7,
              ops=[['set', 'AL', 'step', 0.05, 0.15, 0.0], ['set', 'CO', 'linear', 0.2, 0.1], ['set', 'CR', 'bounded', 0.25, -5e-4, 5e-4], ['add', 'CR', 'single', 0.125, 0.0]]),
     ]
+    cfgs.append(dict(name='mirror-symmetric ternary couple (permuted compositions coincide)', solutes=['CR', 'AL'], zlim=z, N=12, T=1473.15, tf=1.5e7,
+                     ops=[['set', 'AL', 'linear', 0.05, 0.10], ['set', 'CR', 'linear', 0.10, 0.05]], alive=True))
+    cfgs.append(dict(name='symmetric quaternary couple', solutes=['CO', 'CR', 'AL'], zlim=z, N=9, T=1400.0, tf=1.0e7,
+                     ops=[['set', 'CO', 'step', 0.1, 0.05, 0.0], ['set', 'CR', 'step', 0.05, 0.1, 0.0], ['set', 'AL', 'linear', 0.08, 0.08]], alive=True))
     return cfgs
 
 
@@ -1886,6 +2017,8 @@ def explore_stub_diffusion(ctx, quick):
     hits = []
     for cfg in [c['input'] for c in corpus_raw('sdiff')] + stub_diffusion_configs(quick):
         hs = oracle_stub_diffusion(cfg)
+        if cfg.get('alive'):
+            hs = hs + oracle_stub_diffusion_alive(cfg)
         ctx.count({'sdiff': cfg}, True)
         ctx.cov['traces_validated_against_impl'] += min(6, math.factorial(len(cfg['solutes'])))
         for h in hs:
@@ -1986,6 +2119,7 @@ def build_ternary(cfg, ph):
     m.setNucleationDensity(grainSize=1, dislocationDensity=1e15)
     if cfg.get('constraints'):
         m.setConstraints(**cfg['constraints'])
+    apply_phase_options(m, cfg, list(ph))
     log = TernaryLog(c03_runs.StubTernary(list(ph)))
     log.spheres = set(p for p in ph if TPH[p]['shape'] is None and p not in (cfg.get('strain') or {}))
     m.setThermodynamics(log)
@@ -1998,10 +2132,10 @@ def run_ternary(cfg, order):
     ph = [cfg['phases'][i] for i in order]
     with quiet():
         m, log = build_ternary(cfg, ph)
-        m.solve(cfg['tf'], solverType=SolverType.RK4 if cfg.get('solver') == 'RK4' else SolverType.EXPLICITEULER, verbose=False)
+        capped = capped_solve(m, cfg)
     n = m.pData.n
     out = {'n': int(n), 'time': m.pData.time[:n + 1].copy(), 'temperature': m.pData.temperature[:n + 1].copy(), 'phase': {},
-           'composition': m.pData.composition[:n + 1].copy(), 'bad': log.bad, 'ncalls': log.ncalls}
+           'composition': m.pData.composition[:n + 1].copy(), 'bad': log.bad, 'ncalls': log.ncalls, 'capped': capped}
     for j, nm in enumerate(ph):
         d = {f: np.array(getattr(m.pData, f))[:n + 1, j].copy() for f in RUN_FIELDS}
         d['PSD'] = m.PBM[j].PSD.copy()
@@ -2027,8 +2161,8 @@ def oracle_truns(cfg):
             continue
         l1 = [cfg['phases'][i] for i in od]
         if r['n'] != base['n']:
-            hits.append(('run_perm_equivariant', 'multicomponent time grid', 'ternary run: listing the phases as %s takes %d steps to t=%g, listing them as %s takes %d steps'
-                         % (l0, base['n'], cfg['tf'], l1, r['n'])))
+            hits.append(('run_perm_equivariant', 'multicomponent time grid', 'ternary run: listing the phases as %s takes %d steps%s to t=%g, listing them as %s takes %d steps%s'
+                         % (l0, base['n'], ' (stopped by the harness)' if base.get('capped') else '', cfg['tf'], l1, r['n'], ' (stopped by the harness)' if r.get('capped') else '')))
             continue
         found = False
         for f in ('time', 'composition'):
@@ -2133,6 +2267,7 @@ def trun_configs(quick):
     cfgs = [dict(name='ternary, two phases differing in gamma / Vm / shape', phases=['T1', 'T2'], tf=30.),
             dict(name='ternary, three phases', phases=['T1', 'T2', 'T3'], tf=4.),
             dict(name='ternary, two phases, RK4', phases=['T3', 'T2'], tf=3., solver='RK4'),
+            dict(name='ternary, T1 without internal diffusion', phases=['T2', 'T1'], tf=10., options={'T1': {'infiniteDiffusion': False}}),
             dict(name='ternary, needle with aspect ratio calculated from its strain energy + sphere', phases=['T1', 'T2'],
                  strain={'T1': 'needle-calc'}, bins=(40, 30, 60), tf=0.06)]
     if not quick:
